@@ -224,6 +224,9 @@ def c05() -> List[M]:
         M("C05", "ensure-lock-ignores-loop", P, "        if self._lock and self._running_loop == asyncio.get_event_loop():", "        if self._lock:", "C05.R3"),
         M("C05", "revert-fix-close-transport-cancels-timer", P, "    def _close_transport(self) -> None:\n        if self._timer:\n            self._timer.cancel()\n            self._timer = None\n        if self._transport:", "    def _close_transport(self) -> None:\n        if self._transport:", "C05.R4"),
         M("C05", "udp-error-received-skips-close", P, "            logger.debug(\"Response already handled.\")\n        self._close_transport()", "            logger.debug(\"Response already handled.\")", "C05.R4"),
+        M("C05", "revert-fix-udp-oserror-reset", P, "        except OSError:\n            self._retry = 0\n            raise\n        finally:", "        finally:", "C05.R2"),
+        M("C05", "tcp-exhausted-connect-reraises", P, "                return await self.send_request(command)\n            return self._max_retries_reached()\n        finally:\n            if self._lock and self._lock.locked():\n                self._lock.release()\n\n    def _send_request",
+          "                return await self.send_request(command)\n            self._close_transport()\n            raise\n        finally:\n            if self._lock and self._lock.locked():\n                self._lock.release()\n\n    def _send_request", "C05.R2"),
         M("C05", "benign-keyword-arguments", INIT, "        inv = ET(host, port, comm_addr, timeout, retries)", "        inv = ET(host, port, comm_addr, retries=retries, timeout=timeout)", "clean"),
     ]
 
